@@ -65,6 +65,10 @@ IllFormed(p) ==
                                                               /\ (\A h \in 1..(i-1) : pk.fields[h].k # "len")
                                                               /\ \E h \in 1..(i-1) : pk.fields[h].name = pk.fields[i].tgt} }
   \cup { <<"undeclaredPacket", <<"field", j, i>>>> : i \in {i \in 1..Len(pk.fields) : pk.fields[i].k = "obj" /\ pk.fields[i].ty \notin PktNames(p)} }
+  \* one level down: a field of an INLINE object that refers to an undeclared packet (site: nested, packet, field, inner field)
+  \cup UNION { { <<"undeclaredPacket", <<"nested", j, i, h>>>> :
+                   h \in {h \in 1..Len(pk.fields[i].fs) : pk.fields[i].fs[h].k = "obj" /\ pk.fields[i].fs[h].ty \notin PktNames(p)} }
+               : i \in {i \in 1..Len(pk.fields) : pk.fields[i].k = "inl"} }
   \cup UNION { LET f == pk.fields[i] ls == PairLits(f) IN
                  { <<"undeclaredPacket", <<"pair", j, i, q>>>> : q \in {q \in 1..Len(f.pairs) : f.pairs[q].pkt \notin PktNames(p)} }
             \cup { <<"dupMatchKey", <<"pair", j, i, ls[x].q>>>> : x \in {x \in 1..Len(ls) : \E h \in 1..(x-1) : ls[h].lit = ls[x].lit} }
@@ -132,6 +136,10 @@ Step ==
                   { <<"undeclaredPacket", <<"field", j, i>>>> : i \in {i \in 1..Len(pk.fields) : pk.fields[i].k = "obj" /\ pk.fields[i].ty \notin pkts} }
                   \cup UNION { { <<"undeclaredPacket", <<"pair", j, i, q>>>> : q \in {q \in 1..Len(pk.fields[i].pairs) : pk.fields[i].pairs[q].pkt \notin pkts} }
                                : i \in {i \in 1..Len(pk.fields) : pk.fields[i].k = "match"} }
+                  \* inline objects are packets of their own for the resolver: their object fields are looked up as well
+                  \cup UNION { { <<"undeclaredPacket", <<"nested", j, i, h>>>> :
+                                   h \in {h \in 1..Len(pk.fields[i].fs) : pk.fields[i].fs[h].k = "obj" /\ pk.fields[i].fs[h].ty \notin pkts} }
+                               : i \in {i \in 1..Len(pk.fields) : pk.fields[i].k = "inl"} }
                   : j \in 1..Len(prog.pkts) }
             /\ UNCHANGED <<metas, optsSeen, pkts, root, fnames, lenSeen>>
   /\ pc' = pc + 1
@@ -176,7 +184,15 @@ Base4 == [opts |-> O("", ""), xopts |-> <<>>, metas |-> <<>>,
 Base5 == [opts |-> [O("", "") EXCEPT !.pkgs = "omit"],
           xopts |-> <<<<"GoPackage", "\"\"">>, <<"JavaPackage", "\"\"">>, <<"GoModule", "\"m\"">>>>, metas |-> <<>>,
           pkts |-> << [name |-> "Only", root |-> TRUE, fields |-> <<Sc("a", "u8")>>] >>]
-Bases == <<Base1, Base2, Base3, Base4, Base5>>
+\* two packets that each declare an inline object of the SAME name, one of them referring to a packet from inside
+Base6 == [opts |-> O("", ""), xopts |-> <<>>, metas |-> <<>>,
+          pkts |-> << [name |-> "Top", root |-> TRUE, fields |->
+                        <<Sc("T", "u16"), [F0 EXCEPT !.k = "inl", !.name = "Trailer", !.fs = <<Sc("a", "u8")>>],
+                          [F0 EXCEPT !.k = "obj", !.name = "Q", !.ty = "Q"]>>],
+                      [name |-> "Q", root |-> FALSE, fields |->
+                        <<[F0 EXCEPT !.k = "inl", !.name = "Trailer", !.fs = <<Sc("b", "u32"), [F0 EXCEPT !.k = "obj", !.name = "s", !.ty = "Sub"]>>]>>],
+                      PSub >>]
+Bases == <<Base1, Base2, Base3, Base4, Base5, Base6>>
 
 (* ------------------------------- faults --------------------------------- *)
 AppendField(p, j, f) == [p EXCEPT !.pkts[j].fields = Append(@, f)]
@@ -209,6 +225,12 @@ Faults(p) ==
              \* the NAME of the field is a declared packet, its TYPE is not
              \cup { [class |-> "undeclaredPacket", prog |-> AppendField(p, j, [F0 EXCEPT !.k = "obj", !.name = nm, !.ty = "Nope"])] :
                       nm \in {nm \in PktNames(p) : nm # p.pkts[j].name /\ nm \notin FieldNames(p.pkts[j])} }
+             \* ... and the same inside an inline object (appended to its fields / an existing reference made dangling)
+             \cup { [class |-> "undeclaredPacket", prog |-> [p EXCEPT !.pkts[j].fields[i].fs = Append(@, [F0 EXCEPT !.k = "obj", !.name = "ghost", !.ty = "Nope"])]] :
+                      i \in {i \in 1..Len(p.pkts[j].fields) : p.pkts[j].fields[i].k = "inl"} }
+             \cup UNION { { [class |-> "undeclaredPacket", prog |-> [p EXCEPT !.pkts[j].fields[i].fs[h].ty = "Nope"]] :
+                              h \in {h \in 1..Len(p.pkts[j].fields[i].fs) : p.pkts[j].fields[i].fs[h].k = "obj"} }
+                          : i \in {i \in 1..Len(p.pkts[j].fields) : p.pkts[j].fields[i].k = "inl"} }
              \cup { [class |-> "lenofOutsideRoot", prog |-> AppendField(AppendField(p, j, [F0 EXCEPT !.k = "len", !.name = "xl", !.ty = "u16", !.tgt = "xt"]), j, [F0 EXCEPT !.k = "obj", !.name = "xt", !.ty = "A"])] :
                       x \in IF p.pkts[j].root \/ ~(\E h \in 1..Len(p.pkts) : p.pkts[h].name = "A") THEN {} ELSE {1} }
              \cup { [class |-> "lenofTwice", prog |-> AppendField(AppendField(p, j, [F0 EXCEPT !.k = "len", !.name = "xl", !.ty = "u16", !.tgt = "xt"]), j, [F0 EXCEPT !.k = "obj", !.name = "xt", !.ty = "A"])] :
